@@ -149,20 +149,20 @@ def main():
             d = os.path.join(n.dir, 'dirs')
             text = 'pragma solidity 0.8.16;\ncontract Sel {\n    uint256 st; function w() public { st = 1; }\n}\n'
             os.makedirs(d)
-            for sub, fname in (('argdir', 'FromArg.sol'), ('cfgdir', 'FromConfig.sol')) + ((('contracts', 'FromDefault.sol'),) if rec['contracts'] else ()):
+            for sub, fname in (('.argdir', 'FromArg.sol'), ('.cfg.d', 'FromConfig.sol')) + ((('contracts', 'FromDefault.sol'),) if rec['contracts'] else ()):
                 os.makedirs(os.path.join(d, sub))
                 open(os.path.join(d, sub, fname), 'w').write(text)
             open(os.path.join(d, 'afile'), 'w').write(text)
             tomldir = rec.get('tomldir', '')
             if tomldir:
-                for sub in ('argdir', 'cfgdir', 'contracts'):
+                for sub in ('.argdir', '.cfg.d', 'contracts'):
                     os.makedirs(os.path.join(d, tomldir, sub))
                     open(os.path.join(d, tomldir, sub, 'FromNextToConfig.sol'), 'w').write(text)
             cmd = [binary]
             if rec['arg'] != 'none':
-                cmd += ['--path', {'dir': 'argdir', 'missing': 'no-such-dir', 'file': 'afile'}[rec['arg']]]
+                cmd += ['--path', {'dir': '.argdir', 'missing': 'no-such-dir', 'file': 'afile'}[rec['arg']]]
             if rec['cfg'] != 'none':
-                open(os.path.join(d, tomldir, 'cfg.toml'), 'w').write('path = "%s"\noptimizations = ["sstore"]\nvulnerabilities = []\nqa = []\n' % {'dir': 'cfgdir', 'missing': 'no-such-cfg-dir'}[rec['cfg']])
+                open(os.path.join(d, tomldir, 'cfg.toml'), 'w').write('path = "%s"\noptimizations = ["sstore"]\nvulnerabilities = []\nqa = []\n' % {'dir': '.cfg.d', 'missing': 'no-such-cfg-dir'}[rec['cfg']])
                 cmd += ['--toml', os.path.join(tomldir, 'cfg.toml')]
             p = subprocess.run(cmd, cwd=d, stdout=subprocess.PIPE, stderr=subprocess.PIPE, text=True)
             rp = os.path.join(d, 'solstat_report.md')
